@@ -143,6 +143,10 @@ where
                             break;
                         }
                     }
+                    if crate::budget_spent() {
+                        stop.store(true, Ordering::Relaxed);
+                        break;
+                    }
                     let (s, hist) = &frontier[i];
                     let mut out = vec![];
                     for a in s.actions() {
@@ -247,6 +251,10 @@ where
                             stop.store(true, Ordering::Relaxed);
                             break;
                         }
+                    }
+                    if crate::budget_spent() {
+                        stop.store(true, Ordering::Relaxed);
+                        break;
                     }
                     let (hist, key) = &frontier[i];
                     let s = replay(hist);
